@@ -36,6 +36,13 @@ def main():
     warnings.simplefilter("ignore")
     from vf import core
     core.activate_repo()
+    cov = None
+    if os.environ.get("VERIF_LINECOV_DIR"):
+        # development aid (tools/linecov.sh): which repository lines / branches do the workloads of a check actually execute
+        import coverage
+        cov = coverage.Coverage(data_file=os.path.join(os.environ["VERIF_LINECOV_DIR"], ".coverage"), data_suffix=True, branch=True,
+                                source=[os.path.join(core.repo_dir(), "desolver")], omit=["*/tests/*"])
+        cov.start()
     import numpy as np
     np.seterr(all="ignore")
     with open(shard_path) as fh:
@@ -111,6 +118,9 @@ def main():
                 g["counters"][k] = g["counters"].get(k, 0) + v
             g["violations"].extend(extra.get("violations", []))
         out.write(core.dumps({"_done": True, "global": g}) + "\n")
+    if cov is not None:
+        cov.stop()
+        cov.save()
 
 
 if __name__ == "__main__":
